@@ -38,6 +38,8 @@ def _run_check(prop: str, root: Path) -> tuple[int, list[str]]:
     p = subprocess.run([sys.executable, str(VERIF / "check"), prop, "--tier", "quick"], cwd=VERIF, capture_output=True, text=True,
                        env={**os.environ, "VERIF_REPO": str(root), "VERIF_NO_EVIDENCE": "1", "VERIF_TIER": "quick"})
     rules = sorted({l.split(": ")[1].split(" ")[0] for l in p.stdout.splitlines() if l.startswith("  ") and ": C" in l})
+    if p.returncode == 2:
+        rules = [l[:200] for l in p.stdout.splitlines() if l.startswith("ANALYSIS-ERROR")][:1]
     return p.returncode, rules
 
 
@@ -139,6 +141,7 @@ def run_selftest(prop: str, rep) -> int:
         "curated": [{k: x.get(k) for k in ("variant", "kind", "applied", "exit", "rules")} for x in curated],
         "generated_mutants": len(generated), "generated_killed": len(killed), "generated_analysis_error": len(errors),
         "generated_survivors": [{k: x[k] for k in ("function", "op", "detail")} for x in survivors][:40],
+        "generated_stopped": [{k: x.get(k) for k in ("function", "op", "detail", "rules")} for x in errors][:40],
         "note": "generated single-edit mutants may be behaviour preserving; survivors are listed, not counted as failures",
         "neutral_variants": len(neutrals), "neutral_silent": len(neutrals) - len(false_alarms) - len(stopped),
         "neutral_false_alarms": [{k: x[k] for k in ("function", "op", "detail", "rules")} for x in false_alarms],
